@@ -134,7 +134,7 @@ let parse_dict ts = match parse_value ts with (ODict d, r) -> (d, r) | _ -> rais
 let parse_pobj ts = match ts with
   | "o" :: r -> let (v, r') = parse_value r in (PObj v, r')
   | "s" :: r -> let (d, r') = parse_dict r in
-    (match r' with h :: r'' -> (PStream (d, bytes_of_hex h), r'') | [] -> raise (Bad "pobj"))
+    (match r' with h :: b :: r'' -> (PStream (d, bytes_of_hex h, b = "1"), r'') | _ -> raise (Bad "pobj"))
   | _ -> raise (Bad "pobj")
 
 let enc_table : (string * string, coq_N list) Hashtbl.t = Hashtbl.create 64
